@@ -8,6 +8,7 @@ import (
 	"fmt"
 	"strings"
 	"testing"
+	"time"
 
 	"verif/harness/backends"
 	"verif/harness/evid"
@@ -46,6 +47,26 @@ func newC11Env(k backends.Kind) *c11Env {
 }
 
 func (e *c11Env) key(size int) string {
+	if size < 0 {
+		// negative sizes name objects that reached the file-system backends' storage behind the
+		// server's back (no metadata file; or rewritten with another size): -size-1 bytes
+		n := -size - 1
+		k := fmt.Sprintf("raw/obj-%d", n)
+		if !e.have[size] {
+			if n%2 == 1 {
+				// stale metadata: stored through the API with another length first
+				if r := put(e.st, "bk0", k, c11Body(n+3)); r.Status != 200 {
+					panic("harness: " + r.String())
+				}
+				time.Sleep(5 * time.Millisecond)
+			}
+			if err := e.st.RawPut("bk0", k, c11Body(n)); err != nil {
+				panic(err)
+			}
+			e.have[size] = true
+		}
+		return k
+	}
 	k := fmt.Sprintf("obj-%d", size)
 	if !e.have[size] {
 		r := put(e.st, "bk0", k, c11Body(size))
@@ -60,6 +81,9 @@ func (e *c11Env) key(size int) string {
 // c11Outcome is the normalised observable result, used for cross-backend comparison.
 func c11Check(e *c11Env, size int, header string) (ds []disc, outcome string, class string) {
 	key := e.key(size)
+	if size < 0 {
+		size = -size - 1
+	}
 	body := c11Body(size)
 	var r = get(e.st, "bk0", key, "Range", header)
 	if header == "" {
@@ -241,6 +265,29 @@ func c11Run(t *testing.T, c *evid.Collector) {
 			for _, k := range kinds {
 				one(k, size, "", "edge")
 			}
+		}
+		// objects that appeared in the fs backends' storage out of band: every range request is the
+		// FIRST read of a fresh object (the read that has to compute the missing metadata)
+		for _, k := range kinds {
+			if !k.IsFs() {
+				continue
+			}
+			raw := newC11Env(k)
+			n := 0
+			for size := 1; size <= 6; size++ {
+				for _, h := range c11Headers(size) {
+					n++
+					// a fresh object for every request: sizes are encoded as -(len+1) with a running offset
+					rawSize := -(size + 1)
+					delete(raw.have, rawSize)
+					del(raw.st, "bk0", fmt.Sprintf("raw/obj-%d", size))
+					ds, _, class := c11Check(raw, rawSize, h)
+					cs := c11Case{k, rawSize, h}
+					c.Case(evid.FP(string(k), "raw", fmt.Sprint(size), h), class != "none", func() interface{} { return cs }, "class:"+class, "backend:"+string(k), "src:out-of-band-object")
+					report(c, "range", ds, cs)
+				}
+			}
+			raw.st.Close()
 		}
 		c.Exhaustive(false) // the small scope is complete, the property's domain is not
 		c.Set("exhaustive_scope", fmt.Sprintf("sizes 0..%d x {bytes=F-L, bytes=F-, bytes=-S : F,L,S in -1..%d} on %d configurations: complete", n, n+2, len(kinds)))
